@@ -28,3 +28,15 @@ Definition listed (s : nstate) (n : N) : option (N * N) :=
   | Some r => if dead_or_left (rst r) then None else Some (raddr r, rmeta r)
   | None => None
   end.
+
+(* ---------- the same exchange as a schedule of the cluster model ---------- *)
+(* both nodes write their state (two snapshots put on the network), then each processes the other's entries
+   in order: pool positions 0 .. |recs sj|-1 hold j's snapshot, the next |recs si| positions hold i's *)
+Definition deliver_all (i : nat) (from len : nat) : list wact := map (WDeliver i) (seq from len).
+
+Definition exchange_sched (w : world) (i j : nat) : list wact :=
+  match nth_error (wnodes w) i, nth_error (wnodes w) j with
+  | Some (_, si), Some (_, sj) =>
+      [WSnapshot i; WSnapshot j] ++ deliver_all i 0 (length (recs sj)) ++ deliver_all j (length (recs sj)) (length (recs si))
+  | _, _ => []
+  end.
